@@ -431,6 +431,23 @@ def run(rep, repo, tier):
   rule_groups(rep, repo, [("binary", dict(alpha="auto")),
                           ("binary", dict(alpha="auto_po2", use_01=True)),
                           ("ternary", dict(alpha="auto"))], "R6", tier)
+  # R7: a quantizer installed as weight quantizer (after its own
+  # _set_trainable_parameter()) equals the directly constructed one
+  from .c05 import rule_installed
+
+  def installed(cls, tier_):
+    for cls_, kw in lattice(tier_):
+      if cls_ == cls:
+        yield kw
+    if cls == "bernoulli":
+      for alpha in (None, F(2), "auto"):
+        yield dict(alpha=alpha)
+  n7 = rule_installed(rep, repo, ("binary", "ternary", "stochastic_binary",
+                                  "stochastic_ternary", "bernoulli"), "R7",
+                      tier, installed)
+  if n7 < 25:
+    raise AnalysisError("instance-count only %d installed-quantizer "
+                        "configurations" % n7)
   rep.require_instances("R6", 40)
   rep.require_instances("R1", 25)
   rep.require_instances("R2", 25)
